@@ -314,19 +314,24 @@ def quad (A iA B iB : Store α) (i j k : Nat) : Res (α × α × α × α) :=
 
 def sameDims (X Y : Store α) : Bool := X.nrows == Y.nrows && X.ncols == Y.ncols
 
+/-- real / imaginary part of entry `(i,j)` of the complex-pair product (`MatrixTools.h:270-271`) -/
+def cmulReAt (A iA B iB : Store α) (n i j : Nat) : Res α :=
+  dot n fun k =>
+    match quad A iA B iB i j k with
+    | .ok (a, ia, b, ib) => .ok (a * b - ia * ib)
+    | .error e => .error e
+def cmulImAt (A iA B iB : Store α) (n i j : Nat) : Res α :=
+  dot n fun k =>
+    match quad A iA B iB i j k with
+    | .ok (a, ia, b, ib) => .ok (a * ib + ia * b)
+    | .error e => .error e
+
 /-- the two fills of the complex-pair product -/
 def multCBody (A iA B iB O iO : Store α) : Res (Store α × Store α) :=
-  let r := A.nrows; let c := B.ncols; let n := A.ncols
-  match fill (O.resize r c) r c (fun i j => dot n fun k =>
-      match quad A iA B iB i j k with
-      | .ok (a, ia, b, ib) => .ok (a * b - ia * ib)
-      | .error e => .error e) with
+  match fill (O.resize A.nrows B.ncols) A.nrows B.ncols (cmulReAt A iA B iB A.ncols) with
   | .error e => .error e
   | .ok O1 =>
-    match fill (iO.resize r c) r c (fun i j => dot n fun k =>
-        match quad A iA B iB i j k with
-        | .ok (a, ia, b, ib) => .ok (a * ib + ia * b)
-        | .error e => .error e) with
+    match fill (iO.resize A.nrows B.ncols) A.nrows B.ncols (cmulImAt A iA B iB A.ncols) with
     | .error e => .error e
     | .ok iO1 => .ok (O1, iO1)
 
@@ -364,17 +369,19 @@ def multCDTerm (re : Bool) (A iA : Store α) (D iD : Array α) (B iB : Store α)
   | _, .error e, _ => .error e
   | _, _, .error e => .error e
 
+def multCDAt (re : Bool) (A iA : Store α) (D iD : Array α) (B iB : Store α) (i j : Nat) : Res α :=
+  dot A.ncols fun k => multCDTerm re A iA D iD B iB i j k
+
 /-- complex-pair `mult` with a diagonal factor before the repairs (`MatrixTools.h:331-358` of the
 unrepaired file): `iO` is written without having been sized, `iA`, `iB`, `iD` are not checked -/
 def multCDOrig (A iA : Store α) (D iD : Array α) (B iB O iO : Store α) : Res (Store α × Store α) :=
   if A.ncols ≠ B.nrows then .error .dimension
   else if A.ncols ≠ D.size then .error .dimension
   else
-    let r := A.nrows; let c := B.ncols; let n := A.ncols
-    match fill (O.resize r c) r c (fun i j => dot n fun k => multCDTerm true A iA D iD B iB i j k) with
+    match fill (O.resize A.nrows B.ncols) A.nrows B.ncols (multCDAt true A iA D iD B iB) with
     | .error e => .error e
     | .ok O1 =>
-      match fill iO r c (fun i j => dot n fun k => multCDTerm false A iA D iD B iB i j k) with
+      match fill iO A.nrows B.ncols (multCDAt false A iA D iD B iB) with
       | .error e => .error e
       | .ok iO1 => .ok (O1, iO1)
 
@@ -386,11 +393,10 @@ def multCD (A iA : Store α) (D iD : Array α) (B iB O iO : Store α) : Res (Sto
   else if !sameDims iA A then .error .dimension
   else if !sameDims iB B then .error .dimension
   else
-    let r := A.nrows; let c := B.ncols; let n := A.ncols
-    match fill (O.resize r c) r c (fun i j => dot n fun k => multCDTerm true A iA D iD B iB i j k) with
+    match fill (O.resize A.nrows B.ncols) A.nrows B.ncols (multCDAt true A iA D iD B iB) with
     | .error e => .error e
     | .ok O1 =>
-      match fill (iO.resize r c) r c (fun i j => dot n fun k => multCDTerm false A iA D iD B iB i j k) with
+      match fill (iO.resize A.nrows B.ncols) A.nrows B.ncols (multCDAt false A iA D iD B iB) with
       | .error e => .error e
       | .ok iO1 => .ok (O1, iO1)
 
@@ -498,6 +504,15 @@ def pow (A : Store α) (p : Nat) (O : Store α) : Res (Store α) :=
 termination_by p
 decreasing_by all_goals omega
 
+/-- iteration `i = t + 1` of the loop of `Taylor`: `mult(vO[i], A, vO[i+1])` (`MatrixTools.h:577-580`) -/
+def taylorStep (A : Store α) (t : Nat) (vO : Array (Store α)) : Res (Array (Store α)) :=
+  match vget vO (t + 1) with
+  | .error e => .error e
+  | .ok last =>
+    match mult last A (Store.empty .row) with
+    | .ok nxt => .ok (vO.push nxt)
+    | .error e => .error e
+
 /-- `Taylor` before the repair (`MatrixTools.h:557-570` of the unrepaired file): `copy(A, vO[1])`
 also when `vO` has one element -/
 def taylorOrig (A : Store α) (p : Nat) : Res (Array (Store α)) :=
@@ -509,13 +524,7 @@ def taylorOrig (A : Store α) (p : Nat) : Res (Array (Store α)) :=
     match copy A (Store.empty .row) with
     | .error e => .error e
     | .ok v1 =>
-      loopM (p - 1) (fun t (vO : Array (Store α)) =>
-        match vget vO (t + 1) with
-        | .error e => .error e
-        | .ok last =>
-          match mult last A (Store.empty .row) with
-          | .ok nxt => .ok (vO.push nxt)
-          | .error e => .error e) #[v0, v1]
+      loopM (p - 1) (taylorStep A) #[v0, v1]
 
 /-- `Taylor(A, p, vO)` (`MatrixTools.h:567-581`): `vO[0] = Id`, `vO[1] = A`, `vO[i+1] = vO[i]·A`;
 the elements of `vO` are row-stored, `vO` is passed empty -/
@@ -528,13 +537,7 @@ def taylor (A : Store α) (p : Nat) : Res (Array (Store α)) :=
     match copy A (Store.empty .row) with
     | .error e => .error e
     | .ok v1 =>
-      loopM (p - 1) (fun t (vO : Array (Store α)) =>
-        match vget vO (t + 1) with
-        | .error e => .error e
-        | .ok last =>
-          match mult last A (Store.empty .row) with
-          | .ok nxt => .ok (vO.push nxt)
-          | .error e => .error e) #[v0, v1]
+      loopM (p - 1) (taylorStep A) #[v0, v1]
 
 /-- comparisons against the sentinels `std::log(0.)` = `-∞` and `-std::log(0.)` = `+∞`
 (`MatrixTools.h:594, 626, 654, 680`).  At `ℝ` and `Rat` every number is `> -∞` and `< +∞`. -/
@@ -551,17 +554,20 @@ structure Scan (α : Type) where
   j : Nat
   cur : Option α
 
+/-- one position of an extremum scan: `if (m(i,j) > currentMax) { imax = i; jmax = j; currentMax = … }` -/
+def scanStep (first : α → Bool) (better : α → α → Bool) (m : Store α) (i j : Nat) (s : Scan α) : Res (Scan α) :=
+  match m.get i j with
+  | .error e => .error e
+  | .ok x =>
+    let take := match s.cur with
+      | none => first x
+      | some c => better x c
+    .ok (if take then ⟨i, j, some x⟩ else s)
+
 /-- the scan shared by `whichMax`, `whichMin`, `max`, `min` (`MatrixTools.h:587-693`):
 row-major, strict comparison (the first extremum wins) -/
 def scan (first : α → Bool) (better : α → α → Bool) (m : Store α) : Res (Scan α) :=
-  loopM m.nrows (fun i s => loopM m.ncols (fun j s =>
-    match m.get i j with
-    | .error e => .error e
-    | .ok x =>
-      let take := match s.cur with
-        | none => first x
-        | some c => better x c
-      .ok (if take then ⟨i, j, some x⟩ else s)) s) ⟨0, 0, none⟩
+  loopM m.nrows (fun i s => loopM m.ncols (fun j s => scanStep first better m i j s) s) ⟨0, 0, none⟩
 
 def scanMax [ExtCmp α] (m : Store α) : Res (Scan α) := scan ExtCmp.gtNegInf (fun x c => gtb x c) m
 def scanMin [ExtCmp α] (m : Store α) : Res (Scan α) := scan ExtCmp.ltPosInf (fun x c => ltb x c) m
@@ -582,6 +588,12 @@ def isSymmetric (A : Store α) : Res Bool :=
       | .error e, _ => .error e
       | _, .error e => .error e) true) true
 
+/-- `mean(i,0) += A(i,j)` over `j`, then `mean(i,0) /= n` (`MatrixTools.h:894-901`) -/
+def meanAt (A : Store α) (i _j : Nat) : Res α :=
+  match dot A.ncols (fun j => A.get i j) with
+  | .ok s => .ok (s / ofInt A.ncols)
+  | .error e => .error e
+
 /-- `covar` (`MatrixTools.h:884-908`); every temporary is row-stored -/
 def covar (A O : Store α) : Res (Store α) :=
   let r := A.nrows; let n := A.ncols
@@ -595,10 +607,7 @@ def covar (A O : Store α) : Res (Store α) :=
   match scale O1 (one / ofInt n) zero with
   | .error e => .error e
   | .ok O2 =>
-  match fill ((Store.empty .row : Store α).resize r 1) r 1 (fun i _ =>
-      match dot n (fun j => A.get i j) with
-      | .ok s => .ok (s / ofInt n)
-      | .error e => .error e) with
+  match fill ((Store.empty .row : Store α).resize r 1) r 1 (meanAt A) with
   | .error e => .error e
   | .ok mean =>
   match transpose mean (Store.empty .row) with
@@ -657,18 +666,21 @@ def quadAt (A iA B iB : Store α) (i j : Nat) : Res (α × α × α × α) :=
   | _, _, .error e, _ => .error e
   | _, _, _, .error e => .error e
 
+/-- real / imaginary part of entry `(i,j)` of the complex-pair Hadamard product (`MatrixTools.h:1070-1071`) -/
+def hadReAt (A iA B iB : Store α) (i j : Nat) : Res α :=
+  match quadAt A iA B iB i j with
+  | .ok (a, ia, b, ib) => .ok (a * b - ia * ib)
+  | .error e => .error e
+def hadImAt (A iA B iB : Store α) (i j : Nat) : Res α :=
+  match quadAt A iA B iB i j with
+  | .ok (a, ia, b, ib) => .ok (ia * b + a * ib)
+  | .error e => .error e
+
 def hadCBody (A iA B iB O iO : Store α) : Res (Store α × Store α) :=
-  let r := A.nrows; let c := A.ncols
-  match fill (O.resize r c) r c (fun i j =>
-      match quadAt A iA B iB i j with
-      | .ok (a, ia, b, ib) => .ok (a * b - ia * ib)
-      | .error e => .error e) with
+  match fill (O.resize A.nrows A.ncols) A.nrows A.ncols (hadReAt A iA B iB) with
   | .error e => .error e
   | .ok O1 =>
-    match fill (iO.resize r c) r c (fun i j =>
-        match quadAt A iA B iB i j with
-        | .ok (a, ia, b, ib) => .ok (ia * b + a * ib)
-        | .error e => .error e) with
+    match fill (iO.resize A.nrows A.ncols) A.nrows A.ncols (hadImAt A iA B iB) with
     | .error e => .error e
     | .ok iO1 => .ok (O1, iO1)
 
